@@ -612,6 +612,16 @@ func runRealTTL(out *lib.Out) {
 	}
 }
 
+func statusFrame(js string) []byte {
+	var body bytes.Buffer
+	_ = util.WriteVarInt(&body, 0)
+	_ = util.WriteString(&body, js)
+	var frame bytes.Buffer
+	_ = util.WriteVarInt(&frame, body.Len())
+	frame.Write(body.Bytes())
+	return frame.Bytes()
+}
+
 func statusServerAt(addr, name string) (string, *atomic.Int64, func()) {
 	var ln net.Listener
 	var err error
@@ -658,7 +668,7 @@ func main() {
 	rng := lib.NewRng(f.Seed)
 	out := lib.NewOut("C32", f)
 	out.Imports = "From Verif Require Import Model.PingCache.\n"
-	out.Rule = "sched: PRNG scripts of 6-18 atomic steps (38% new request over 4 keys = backend x protocol x route generation with ttl 3/5/9 units, 20% a parked request passes DoChan, 20% a running loader returns (25% of them an error), 8% reset, 9% clock +2/4/6 units, 5% fast-path get) realised step by step on a real pingStatusCache with a gated real singleflight.Group, then drained; free: 4 goroutines x 4 loads racing 1-3 resets on a real cache, predicate evaluated on the history; resolve: 1-3 loopback backends up (40%) or down, fallback configured (60%), cache on/off; reload: cached within TTL, fresh after ResetPingCache over the public API; real-ttl: production clock wiring, ttl 1.5s; distinct = distinct Coq term; non-trivial = a schedule in which some request was answered with another request's fetch (cache hit or shared flight), or a resolve over >=2 backends"
+	out.Rule = "sched: PRNG scripts of 6-18 atomic steps (38% new request over 4 keys = backend x protocol x route generation with ttl 3/5/9 units, 20% a parked request passes DoChan, 20% a running loader returns (25% of them an error), 8% reset, 9% clock +2/4/6 units, 5% fast-path get) realised step by step on a real pingStatusCache with a gated real singleflight.Group, then drained; free: 4 goroutines x 4 loads racing 1-3 resets on a real cache, predicate evaluated on the history; resolve: 1-3 loopback backends up (40%) or down, fallback configured (60%), cache on/off; reload: cached within TTL, fresh after ResetPingCache over the public API; real-ttl: production clock wiring, ttl 1.5s; reload-field: for every exported field of lite/config.Route (reflection; on the pinged route and on a second route) and every field below Route.Fallback: ping, real Proxy.ApplyLiveConfig with a configuration differing in exactly that field, ping - plus two unchanged controls; distinct = distinct Coq term; non-trivial = a schedule in which some request was answered with another request's fetch (cache hit or shared flight), or a resolve over >=2 backends"
 
 	// fixed corpus: reset while a fetch is in flight, then a request after the reset
 	runSched(out, rng.Fork(), func(s *sched, r *lib.Rng) {
@@ -702,6 +712,7 @@ func main() {
 	for i := 0; i < 2; i++ {
 		runReload(out, i)
 	}
+	runReloadFamily(out, rng.Fork())
 	runRealTTL(out)
 	out.Finish()
 }
